@@ -294,7 +294,7 @@ class Evaluator:
         self.frames.append(fr)
         self.emit("enter", node or fi.node, callee=fi.qualname, fi=fi)
         cur = State(st.attrs, locs)
-        cur = self.exec_block(fi.node.body, cur.copy(), keep=True)
+        cur = self.exec_block(_generator_body(fi.node) or fi.node.body, cur.copy(), keep=True)
         # merge exits
         exits = list(fr.exits)
         if cur is not None:
@@ -2006,6 +2006,58 @@ def _cheap_body(loop):
                 if nm not in _CHEAP_CALLS:
                     return False
     return True
+
+
+_GEN_BODIES = {}
+
+
+def _generator_body(fn):
+    """A generator function whose yields are all plain `yield <value>` statements, consumed in full, produces the list of the
+    values yielded in order: its body with `__gen__ = []` first, `__gen__.append(<value>)` for each yield and `return __gen__`
+    at every exit.  (Laziness only interleaves its side effects with the consumer's; the values and their order are these.)
+    None for a function that is not a generator, or uses another form of yield."""
+    if id(fn) in _GEN_BODIES:
+        return _GEN_BODIES[id(fn)][1]
+    own = []
+    def walk(n):
+        for ch in ast.iter_child_nodes(n):
+            if isinstance(ch, (ast.FunctionDef, ast.AsyncFunctionDef, ast.Lambda, ast.ClassDef)):
+                continue
+            own.append(ch)
+            walk(ch)
+    walk(fn)
+    ys = [n for n in own if isinstance(n, (ast.Yield, ast.YieldFrom))]
+    body = None
+    if ys:
+        stmt_yields = {id(n.value) for n in own if isinstance(n, ast.Expr) and isinstance(n.value, ast.Yield) and n.value.value is not None}
+        if all(isinstance(y, ast.Yield) and id(y) in stmt_yields for y in ys) and not any(isinstance(n, ast.Return) and n.value is not None for n in own):
+            import copy as _copy
+
+            class Rw(ast.NodeTransformer):
+                def visit_FunctionDef(self, n):
+                    return n
+                visit_AsyncFunctionDef = visit_Lambda = visit_ClassDef = visit_FunctionDef
+
+                def visit_Expr(self, n):
+                    if isinstance(n.value, ast.Yield):
+                        call = ast.Call(func=ast.Attribute(value=ast.Name(id="__gen__", ctx=ast.Load()), attr="append", ctx=ast.Load()),
+                                        args=[n.value.value], keywords=[])
+                        return ast.copy_location(ast.Expr(value=ast.copy_location(call, n)), n)
+                    return n
+
+                def visit_Return(self, n):
+                    return ast.copy_location(ast.Return(value=ast.copy_location(ast.Name(id="__gen__", ctx=ast.Load()), n)), n)
+
+            new = [Rw().visit(_copy.deepcopy(s)) for s in fn.body]
+            first = ast.Assign(targets=[ast.Name(id="__gen__", ctx=ast.Store())], value=ast.List(elts=[], ctx=ast.Load()))
+            last = ast.Return(value=ast.Name(id="__gen__", ctx=ast.Load()))
+            for x in (first, last):
+                ast.copy_location(x, fn.body[0] if x is first else fn.body[-1])
+            body = [first] + new + [last]
+            for s in body:
+                ast.fix_missing_locations(s)
+    _GEN_BODIES[id(fn)] = (fn, body)
+    return body
 
 
 def _reflects_on_target(loop):
